@@ -10,7 +10,7 @@
     The contiguous path of hfile.c (Hseek/Hread/Hwrite/Htrunc bookkeeping, append-at-EOF decision) and
     external elements are decided by the correspondence against S only (see DESIGN.md C01). *)
 From Coq Require Import ZArith List Bool.
-Require Import H4.EStoreSpec H4.HBlocksModel H4.HBlocksProofs H4.EStoreProofs.
+Require Import H4.EStoreSpec H4.HBlocksModel H4.HBlocksProofs H4.EStoreProofs H4.HFileModel H4.HFileProofs.
 Import ListNotations.
 Local Open Scope Z_scope.
 
@@ -50,13 +50,13 @@ Qed.
 Print Assumptions silent_promotion_preserves.
 
 (** from any reachable state of a linked-block element *)
-Theorem lb_refines_stream : forall ops st, Inv st -> Forall op_pos_ok ops ->
+Theorem lb_refines_stream : forall ops st, HBlocksProofs.Inv st -> Forall op_pos_ok ops ->
   lb_run st ops = stream_run (abs_stream st) ops.
 Proof. exact lb_refines_stream_lemma. Qed.
 Print Assumptions lb_refines_stream.
 
 (** position <-> (block, offset) is a bijection: no two positions share a cell, every cell is a position *)
-Theorem locate_bijective : forall st, WF st ->
+Theorem locate_bijective : forall st, HBlocksProofs.WF st ->
   (forall q, 0 <= q -> let '(i, r) := locate st q in 0 <= i /\ 0 <= r < cur_len st i /\ bstart st i + r = q) /\
   (forall i r, 0 <= i -> 0 <= r < cur_len st i -> locate st (bstart st i + r) = (i, r)).
 Proof. intros st H. split; [intros q Hq; exact (locate_spec st q H Hq) | intros i r; exact (locate_unique st i r H)]. Qed.
@@ -84,6 +84,35 @@ Theorem spec_reopen_is_zero_gap_stream : forall d pos bytes,
 Proof. exact settle_write_at_lemma. Qed.
 Print Assumptions spec_reopen_is_zero_gap_stream.
 
+(** (4) the contiguous path (HFileModel.v: HPgetdiskblock, Hsetlength, Hwrite with the append-at-end-of-file
+    versus promote decision, Htrunc, Hdupdd, Hdeldd): for EVERY history the live extents lie inside the file,
+    and two descriptors share a byte only if they start at the same offset (aliases made by Hdupdd) *)
+Theorem alloc_disjoint : forall ops e, 0 <= e -> HFileProofs.Inv (fold_left fstep ops (finit e)).
+Proof. exact alloc_disjoint_lemma. Qed.
+Print Assumptions alloc_disjoint.
+
+(** every block handed out starts at the old end of file *)
+Theorem alloc_at_end : forall s n, HFileProofs.Inv s -> 0 <= n ->
+  let '(s', off) := alloc s n in
+  off = fend s /\ fend s' = fend s + n /\ HFileProofs.Inv s' /\ forall d, In d (dds s) -> doff d + dlen d <= off.
+Proof. exact alloc_fresh. Qed.
+Print Assumptions alloc_at_end.
+
+(** a successful write changes no byte of any other (non-aliased) element, whether it stays inside the
+    element or appends in place at the end of the file *)
+Theorem write_frame : forall s k pos app bytes s' n d k2 d2,
+  HFileProofs.Inv s -> 0 <= pos -> hwrite s k pos app bytes = (s', WOk n) ->
+  dfind k (dds s) = Some d -> dfind k2 (dds s) = Some d2 -> k2 <> k -> doff d2 <> doff d ->
+  content s' k2 = content s k2.
+Proof. exact write_frame_lemma. Qed.
+Print Assumptions write_frame.
+
+Theorem read_after_write_contig : forall s k pos app bytes s' n,
+  0 <= pos -> hwrite s k pos app bytes = (s', WOk n) ->
+  n = HFileModel.zlen bytes /\ hread s' k pos n = Some bytes.
+Proof. exact read_after_write_contig_lemma. Qed.
+Print Assumptions read_after_write_contig.
+
 (** Non-vacuity *)
 Example inv_holds_after_work :
   match hl_write (hl_new 4 2) 9 [1; 2; 3; 4; 5; 6] with
@@ -93,6 +122,12 @@ Example inv_holds_after_work :
 Proof. vm_compute. repeat split. Qed.
 Example ops_ok : Forall op_pos_ok [LWrite 9 [1;2;3]; LRead 0 0; LWrite 2 [7]; LRead 1 20].
 Proof. repeat constructor; cbn; discriminate. Qed.
+Example contig_history_reaches_append_and_promote :
+  let s := fold_left fstep [FCreate (1,1) 4; FWrite (1,1) 0 true [1;2;3;4;5;6]; FCreate (1,2) 3;
+                            FDup (1,3) (1,1); FTrunc (1,2) 1] (finit 202) in
+  map (fun d => (dk d, doff d, dlen d)) (dds s) = [((1,2), 208, 1); ((1,3), 202, 6); ((1,1), 202, 6)] /\
+  fend s = 211 /\ snd (hwrite s (1,1) 6 true [9]) = WPromote /\ snd (hwrite s (1,2) 1 true [9; 9]) = WPromote.
+Proof. vm_compute. repeat split. Qed.
 Example runs_agree :
   lb_run (hl_new 4 2) [LWrite 9 [1;2;3]; LRead 0 0; LWrite 2 [7]; LRead 1 20]
   = [LWrote 3; LBytes [0;0;0;0;0;0;0;0;0;1;2;3]; LWrote 1; LBytes [0;7;0;0;0;0;0;0;1;2;3]].
